@@ -434,6 +434,12 @@ class World:
         src = {"NORMAL": [["waiting"], ["delayed"]], "DELAYED": [["delayed"], ["waiting"]], "DEAD": [["dead"]]}[m.taken_from or "NORMAL"]
         allowed = {"ack": [[], ["held"]], "nack": [["held"], ["dead"]], "reject": [["held"]] + src,
                    "requeue": [["held"], ["waiting"], ["delayed"]]}[name]
+        exp_after = m.expiry if name == "reject" else (new_exp if name == "requeue" else None)
+        if kinds == ["dead"] and exp_after is not None and self.now > exp_after - self.lat_total - 1e-6:
+            # its time-to-live has run out: once the (cancelled) call has put it back, a consumer that meets it dead-letters it -
+            # the post-state followed by an expiry, not a torn call
+            kinds = ["waiting"]
+            m.dead = True
         if kinds not in allowed:
             what = "lost" if not kinds else ("duplicated" if len(kinds) > 1 else "misplaced")
             self.v("cancel-atomicity", f"{name} of message {m.id} (taken from {m.taken_from}) was cancelled after "
